@@ -290,6 +290,71 @@ theorem v1_detected (P : Prims) (K : Kdf) (magic : Nat) (rnd : List UInt8) (gLen
     (responder P K magic rnd gLen decoys (v1Prefix magic ++ tail)).written = [] :=
   Lemmas.responder_v1 P K magic rnd gLen decoys tail
 
+/-! ### options and signals used by peer/peer.go -/
+
+/-- `WithResponderHandshakeAdmission`: an admission that admits both CPU phases does not change the
+handshake in any way -/
+theorem admission_transparent (P : Prims) (K : Kdf) (magic : Nat) (rnd : List UInt8) (gLen : Nat)
+    (decoys : List Nat) (inp : List UInt8) (adm : Nat) (h1 : adm ≠ 1) (h2 : adm ≠ 2) :
+    (responderAdm P K magic rnd gLen decoys inp adm).1 = responder P K magic rnd gLen decoys inp :=
+  Lemmas.responderAdm_admits P K magic rnd gLen decoys inp adm h1 h2
+
+/-- the v1 fallback path never consults the admission (and writes nothing, generates no key) -/
+theorem admission_not_consulted_for_v1 (P : Prims) (K : Kdf) (magic : Nat) (rnd : List UInt8)
+    (gLen : Nat) (decoys : List Nat) (tail : List UInt8) (adm : Nat) :
+    responderAdm P K magic rnd gLen decoys (v1Prefix magic ++ tail) adm = (⟨[], .useV1, none, []⟩, 0, 0) :=
+  Lemmas.responderAdm_v1 P K magic rnd gLen decoys tail adm
+
+/-- a rejected key-generation phase costs the node nothing: no key is generated, nothing is
+written, exactly one Acquire and no release -/
+theorem admission_reject_first (P : Prims) (K : Kdf) (magic : Nat) (rnd : List UInt8) (gLen : Nat)
+    (decoys : List Nat) (inp : List UInt8) (i : Nat)
+    (hv : v1Mismatch (v1Prefix magic) inp 16 0 = .ok i) :
+    responderAdm P K magic rnd gLen decoys inp 1 = (⟨[], .admission, none, inp⟩, 1, 0) :=
+  Lemmas.responderAdm_reject_first P K magic rnd gLen decoys inp i hv
+
+/-- leases are balanced on every path: releases ≤ acquisitions, equal unless an Acquire itself
+failed (then exactly the failed one is outstanding and the status is the admission error) -/
+theorem admission_balanced (P : Prims) (K : Kdf) (magic : Nat) (rnd : List UInt8) (gLen : Nat)
+    (decoys : List Nat) (inp : List UInt8) (adm : Nat) :
+    (responderAdm P K magic rnd gLen decoys inp adm).2.2 ≤ (responderAdm P K magic rnd gLen decoys inp adm).2.1 ∧
+    ((responderAdm P K magic rnd gLen decoys inp adm).2.1 = (responderAdm P K magic rnd gLen decoys inp adm).2.2 ∨
+      ((responderAdm P K magic rnd gLen decoys inp adm).1.status = .admission ∧
+       (responderAdm P K magic rnd gLen decoys inp adm).2.1 = (responderAdm P K magic rnd gLen decoys inp adm).2.2 + 1)) :=
+  Lemmas.responderAdm_balanced P K magic rnd gLen decoys inp adm
+
+/-- `ReceivedPrefix()` after a v1 peer was detected is exactly the 16-byte v1 prefix (what peer.go
+passes to the v1 message reader so that no byte of the version message is lost) -/
+theorem received_prefix_v1 (magic : Nat) (tail : List UInt8) (stopped : Bool) :
+    responderPrefix magic (v1Prefix magic ++ tail) stopped = v1Prefix magic :=
+  Lemmas.responderPrefix_v1 magic tail stopped
+
+/-- downgrade signalling: an initiator whose peer hangs up without sending a byte is told to retry
+with v1 (ErrShouldDowngradeToV1); one that received 1..63 bytes gets a plain I/O error; in both
+cases it has written exactly its key and garbage -/
+theorem downgrade_signal (P : Prims) (K : Kdf) (magic : Nat) (rnd : List UInt8) (gLen : Nat)
+    (decoys : List Nat) (priv : Nat) (ell rnd' : List UInt8)
+    (hc : Ellswift.create rnd = some (priv, ell, rnd')) (hg : gLen ≤ MAX_GARBAGE_LEN)
+    (inp : List UInt8) (hl : inp.length < 64) :
+    (initiator P K magic rnd gLen decoys inp).status = (if inp.length = 0 then .downgradeV1 else .io) ∧
+    (initiator P K magic rnd gLen decoys inp).written = ell ++ rnd'.take gLen :=
+  Lemmas.initiator_short P K magic rnd gLen decoys priv ell rnd' hc (by simpa [MAX_GARBAGE_LEN] using hg) inp hl
+
+/-- a refused send (contents above the limit) leaves the direction untouched, a failed receive
+leaves the packet cipher untouched: both are pure functions returning no new state -/
+theorem refused_operations_keep_state (P : Prims) (d : Dir) (c aad : List UInt8) (ign : Bool)
+    (s : FSP) (ct : List UInt8) :
+    (c.length > 2 ^ 24 - 1 → sendPacket P d c aad ign = none) ∧
+    (aeadOpen? P s.key (fspNonce s.ctr) aad ct = none → fspDecrypt P s aad ct = none) := by
+  refine ⟨fun h => ?_, fun h => ?_⟩
+  · unfold sendPacket; rw [if_pos h]
+  · unfold fspDecrypt; rw [h]
+
+/-- Peer.Receive(n) on a stream that holds the bytes returns exactly them and leaves the rest -/
+theorem receive_exact (a b : List UInt8) : recvN (a ++ b) a.length = .ok (a, b) := by
+  unfold recvN
+  rw [if_neg (by simp), List.take_left, List.drop_left]
+
 /-! ### ElligatorSwift: decode ∘ encode = id -/
 
 /-- An ElligatorSwift encoding always decodes to the encoded x-coordinate: whenever
